@@ -359,12 +359,15 @@ def writeset(cx, fn, var, loop, chan_var, law_names, guard_test=None, scalar_pat
     allowed = {'when ' + sym.show(_abstract(sym.norm("hasattr(%s, '_range')" % var), {}, fn._local_names)),
                'when ' + sym.show(_abstract(sym.norm('%s._range[%s] is not None' % (var, chan_var)), {}, fn._local_names))}
     for c_st in col_sts:
-        cc = set(run_context(fn, c_st, None, resolved=False) or [])
         for r_st in rng_sts:
-            rc = set(run_context(fn, r_st, None, resolved=False) or [])
-            extra = sorted((rc - cc) - allowed)
-            lost = sorted(cc - rc)
-            ok = not extra and not lost and allowed <= rc
+            for reading in (False, True):
+                cc = set(run_context(fn, c_st, None, resolved=reading) or [])
+                rc = set(run_context(fn, r_st, None, resolved=reading) or [])
+                extra = sorted((rc - cc) - allowed)
+                lost = sorted(cc - rc)
+                ok = not extra and not lost and allowed <= rc
+                if ok:
+                    break
             fn.ob('SAMELAW', 'whenever the events of a channel are converted its limits are converted too (unless it has no range)', ok, r_st,
                   detail='' if ok else 'the range update %s' % (('additionally runs only ' + ' & '.join(extra)) if extra else
                                                               ('does not share the conditions of the event update: ' + ' & '.join(lost + sorted(allowed - rc)))),
